@@ -70,7 +70,7 @@ class Plan:
     def render(self):
         lines = []
         for k, v in sorted(self.knobs.items()):
-            if v is None or k in ("symlinks",):      # 'symlinks' is prepared by run_plan, not by rtsim
+            if v is None or k in ("symlinks", "stale"):      # prepared by run_plan, not by rtsim
                 continue
             lines.append("knob %s %s" % (k, v))
         for i, t in enumerate(self.ops):
@@ -167,6 +167,18 @@ def run_plan(ctx, plan, workdir, variant="real", san="asan", timeout=120):
         link, target = spec.split(":")
         os.makedirs(os.path.join(root, target))
         os.symlink(target, os.path.join(root, link))
+    for spec in filter(None, str(plan.knobs.get("stale") or "").split(",")):
+        # what an earlier incarnation of the same program (same loom, PID and TIDs: a container, a batch job restarted
+        # in place) left behind: <thread directory relative to the root>:<number of old events>
+        rel, nev = spec.rsplit(":", 1)
+        d = os.path.join(root, rel)
+        os.makedirs(d, exist_ok=True)
+        old = tf.HEADER + b"".join(tf.enc("OB.", 5 * 10 ** 12 + k, struct.pack("<Q", k)) for k in range(int(nev)))
+        with open(os.path.join(d, "stream.obs"), "wb") as f:
+            f.write(old)
+        with open(os.path.join(d, "stream.json"), "w") as f:
+            f.write('{"version": 3, "ovni": {"lib": {"version": "1.11.0", "commit": "old"}, "part": "thread", "tid": %s, "pid": 1, '
+                    '"loom": "old", "app_id": 1, "require": {"ovni": "1.1.0"}, "finished": 1}, "stale": true}\n' % rel.rsplit(".", 1)[-1])
     planf = os.path.join(workdir, "plan.txt")
     with open(planf, "w") as f:
         f.write(plan.render())
@@ -179,8 +191,9 @@ def run_plan(ctx, plan, workdir, variant="real", san="asan", timeout=120):
            "UBSAN_OPTIONS": "print_stacktrace=1:halt_on_error=1:exitcode=78",
            "TSAN_OPTIONS": "halt_on_error=0:exitcode=66:report_signal_unsafe=0:history_size=4"}
     try:
+        from .framework import die_with_parent
         p = subprocess.run([exe, planf, root, histf], env=env, stdin=subprocess.DEVNULL,
-                           stdout=subprocess.PIPE, stderr=subprocess.PIPE, timeout=timeout)
+                           stdout=subprocess.PIPE, stderr=subprocess.PIPE, timeout=timeout, preexec_fn=die_with_parent)
         status = p.returncode if p.returncode >= 0 else "signal:%d" % (-p.returncode)
         err = p.stderr
     except subprocess.TimeoutExpired as e:
